@@ -6,7 +6,7 @@ import multiprocessing as mp_
 from fractions import Fraction
 import mpmath
 from mpmath import mp, mpf, mpc
-from vlib.core import Check, run_cases, run_one, check_process_reports, crash_key, render, NCPU, bits_to_float
+from vlib.core import Check, run_cases, run_one, check_process_reports, crash_key, resource_crash, render, NCPU, bits_to_float
 from vlib import gen, oracle_e
 from vlib.gen import I, FR, CX, S, K
 from . import _value
@@ -100,6 +100,8 @@ def _judge_inner(te, outs, cplx):
                 continue
             if oracle_e.kind_of(v) != 'finite':
                 return 'inconclusive', 'non-finite intermediate'
+            if abs(v) > mpf(10) ** 300 or (v != 0 and abs(v) < mpf(10) ** -300):
+                return 'inconclusive', 'intermediate value outside the range of a double (overflow / underflow is the documented behaviour of double evaluation)'
             if isinstance(v, mpc) and abs(v.imag) > mpf(10) ** -40:
                 real_ok = False
             if _on_cut(sub):
@@ -240,6 +242,9 @@ class C(Check):
                 self.inconclusive += 1
                 continue
             self.note_asserts(r)
+            if r.status == 'crashed' and resource_crash(r):
+                self.count('resource-limit (astronomically large integer)')
+                continue
             if r.status == 'crashed':
                 self.violation(crash_key(r), dict(program=[render(s) for s in self.make(e)], crash=r.crash, config='asan'))
                 continue
